@@ -4,6 +4,7 @@ import (
 	"encoding/binary"
 	"fmt"
 	"math/rand/v2"
+	"sync"
 
 	"verif/mon"
 	"verif/rfix"
@@ -11,26 +12,35 @@ import (
 )
 
 // worlds generates the topology list of a tier: multi-ISD topologies plus chains.
-func worlds(r *mon.Run, rng *rand.Rand, nMulti int, chains []int, epic bool, each func(w *world, wi int)) {
-	wi := 0
+func worlds(r *mon.Run, _ *rand.Rand, nMulti int, chains []int, epic bool, each func(w *world, wi int, rng *rand.Rand)) {
+	// every world has its own PRNG stream (seed, property, world index), so the
+	// worlds can be explored concurrently without affecting each other's cases
+	type job struct{ wi, chain int }
+	var jobs []job
 	for i := 0; i < nMulti; i++ {
-		w, err := newWorld(rng, 0, epic, wi)
-		if err != nil {
-			r.Violation(r.ID+":fixture", "world construction failed: "+err.Error(), nil)
-			continue
-		}
-		each(w, wi)
-		wi++
+		jobs = append(jobs, job{len(jobs), 0})
 	}
 	for _, n := range chains {
-		w, err := newWorld(rng, n, epic, wi)
-		if err != nil {
-			r.Violation(r.ID+":fixture", "chain construction failed: "+err.Error(), nil)
-			continue
-		}
-		each(w, wi)
-		wi++
+		jobs = append(jobs, job{len(jobs), n})
 	}
+	sem := make(chan struct{}, r.Pick(8, 14))
+	var wg sync.WaitGroup
+	for _, j := range jobs {
+		wg.Add(1)
+		sem <- struct{}{}
+		go func(j job) {
+			defer wg.Done()
+			defer func() { <-sem }()
+			rng := r.Rand(fmt.Sprintf("%s-world-%d", r.ID, j.wi))
+			w, err := newWorld(rng, j.chain, epic, j.wi)
+			if err != nil {
+				r.Violation(r.ID+":fixture", "world construction failed: "+err.Error(), nil)
+				return
+			}
+			each(w, j.wi, rng)
+		}(j)
+	}
+	wg.Wait()
 }
 
 func checkC02(r *mon.Run) {
@@ -43,13 +53,13 @@ func checkC02(r *mon.Run) {
 		"routers are not Run: the simulator calls the real fast/slow path per packet and follows the link the router chose",
 	}
 	rng := r.Rand("c02")
-	nMulti := r.Pick(12, 200)
+	nMulti := r.Pick(40, 600)
 	chains := []int{2, 3, 5, 9, 17}
 	pairLimit := r.Pick(0, 0)
 	if r.Thorough() {
 		chains = []int{2, 3, 4, 5, 8, 13, 21, 34, 64}
 	}
-	worlds(r, rng, nMulti, chains, false, func(w *world, wi int) {
+	worlds(r, rng, nMulti, chains, false, func(w *world, wi int, rng *rand.Rand) {
 		for _, pr := range w.pairs(rng, pairLimit) {
 			for _, f := range w.flows(rng, pr[0], pr[1]) {
 				f := f
@@ -62,7 +72,7 @@ func checkC02(r *mon.Run) {
 			}
 		}
 	})
-	r.Require(int64(r.Pick(1500, 50000)), 12, "delivered", "crossed_sibling")
+	r.Require(int64(r.Pick(5000, 100000)), 12, "delivered", "crossed_sibling")
 	r.RequireClasses()
 }
 
@@ -126,7 +136,7 @@ func checkC22(r *mon.Run) {
 		"hop fields are located in the registered segments by (timestamp, MAC); a 48-bit collision is ignored",
 	}
 	rng := r.Rand("c22")
-	nMulti := r.Pick(8, 120)
+	nMulti := r.Pick(24, 300)
 	chains := []int{2, 3, 4, 7, 16, 33, 64}
 	if r.Thorough() {
 		chains = nil
@@ -134,7 +144,7 @@ func checkC22(r *mon.Run) {
 			chains = append(chains, n)
 		}
 	}
-	worlds(r, rng, nMulti, chains, false, func(w *world, wi int) {
+	worlds(r, rng, nMulti, chains, false, func(w *world, wi int, rng *rand.Rand) {
 		limit := 0
 		if w.topo.Family == "chain" && len(w.topo.ASes) > 24 && !r.Thorough() {
 			limit = 400
@@ -149,7 +159,7 @@ func checkC22(r *mon.Run) {
 			}
 		}
 	})
-	r.Require(int64(r.Pick(1500, 50000)), 20, "wire_checked", "wire_nonconsdir_external", "wire_peering", "wire_after_xover", "future_segment_checked")
+	r.Require(int64(r.Pick(4000, 80000)), 20, "wire_checked", "wire_nonconsdir_external", "wire_peering", "wire_after_xover", "future_segment_checked")
 }
 
 func judgeC22(r *mon.Run, w *world, f *flow, in []byte, wk *simnet.Walk) {
